@@ -18,6 +18,7 @@ type Obligation struct {
 	PC      []Term
 	Goal    Term
 	Cover   bool // expected SAT (vacuity canary): checks pc ∧ goal satisfiable
+	OK      bool // set by judge()
 	Src     string
 	Pos     string
 	Trace   []string
